@@ -106,13 +106,17 @@ impl RlModel {
 /// RLBuilder: `steps` arbitrary calls (try_set(start, len) or set_len(n), arguments over all
 /// usize below `bound`), observables after every call, then conversion and queries.
 /// `bound` = usize::MAX means unrestricted.
-pub fn rl_builder(steps: usize, bound: usize, convert: bool) {
+pub fn rl_builder(steps: usize, bound: usize, convert: bool) { rl_builder_kinds(steps, bound, convert, &[]) }
+
+/// Same with the kind of each call fixed by `kinds` (true = try_set, false = set_len) when given.
+pub fn rl_builder_kinds(steps: usize, bound: usize, convert: bool, kinds: &[bool]) {
     let mut b = RLBuilder::new();
     let mut m = RlModel { len: 0, ones: 0, r: 0, s: [0; MK], l: [0; MK] };
     assert!(b.len() == 0 && b.count_ones() == 0 && b.is_empty());
     let mut k = 0;
     while k < steps {
-        if sym::bool() {
+        let kind = if k < kinds.len() { kinds[k] } else { sym::bool() };
+        if kind {
             let start = sym::usize(); let len = sym::usize();
             sym::assume(start <= bound && len <= bound);
             let ok = start >= m.len && usize::MAX - len >= start;
@@ -131,13 +135,27 @@ pub fn rl_builder(steps: usize, bound: usize, convert: bool) {
             if n > m.len { m.len = n; }
         }
         assert!(b.len() == m.len && b.count_ones() == m.ones && b.count_zeros() == m.len - m.ones && b.is_empty() == (m.len == 0));
+        // encoding invariant (through the cfg(simple_sds_verif) hook): the pending run is exactly the
+        // last accepted run, it starts at or after the encoded tail, and ends at the current length
+        let (tail, rs, rl) = b.verif_state();
+        // (natively the API-level comparison after conversion below decides; it is cheap there)
+        if !cfg!(kani) {}
+        else if m.r == 0 { assert!(rl == 0 && tail == 0); }
+        else {
+            let (ls, ll) = (m.s[m.r - 1], m.l[m.r - 1]);
+            if rl > 0 { assert!(rs == ls && rl == ll && tail <= rs && (m.r < 2 || tail == m.s[m.r - 2] + m.l[m.r - 2])); }
+            else { assert!(tail == ls + ll); }
+        }
         k += 1;
     }
-    if convert {
+    if convert || cfg!(not(kani)) {
+        // the converted vector holds exactly the accepted (merged) runs: compared through the run
+        // iterator, which decodes the blocks sequentially (rank/select on such vectors: C03)
         let v = RLVector::from(b);
         assert!(v.len() == m.len && v.count_ones() == m.ones);
-        let i = sym::usize();
-        assert!(v.rank(i) == m.rank(if i < m.len { i } else { m.len }));
-        match v.select(i) { None => assert!(i >= m.ones), Some(p) => assert!(i < m.ones && p < m.len && m.get(p) && m.rank(p) == i) }
+        let mut it = v.run_iter();
+        let mut k = 0;
+        while k < MK { if k < m.r { assert!(it.next() == Some((m.s[k], m.l[k]))); } k += 1; }
+        assert!(it.next().is_none());
     }
 }
